@@ -540,6 +540,18 @@ def self_once(rep, u):
             if r == "unsure":
                 undec2 = "direct-call guard not evaluable"
             served += 1 if r == "sure" else 0
+        # ... nor the "schedule the caller itself when the chain cannot start" send of tpt_msg_cbsend
+        c_sites = [(pos_, c_) for pos_, root_, c_, ps_ in fa.calls({"tpt_msg_send"}) if any(key(core.strip_casts(a_)) == fb.name for a_ in c_["args"])]
+        nxt_a = [c_ for pos_, root_, c_, ps_ in fa.calls({"tpt_msg_one_by_one_send_next__int"})]
+        if nxt_a:
+            pe = r_stride.PE(u, call_default={"calloc": 0x900000, "tp_thread_get": 0x7777, "tpt_get_num": 1})
+            bindc = dict(binda)
+            bindc[key(nxt_a[0])] = 29
+            for pos_, c_ in c_sites:
+                r, path = pe.reach_stmt(fa, fa.entry, set(fa.reachable_blocks()), bindc, pos_[0], fa.blocks[pos_[0]].elems[pos_[1]])
+                if r == "unsure":
+                    undec2 = "chain-failure guard not evaluable"
+                served += 1 if r == "sure" else 0
         pe = r_stride.PE(u, call_default={"tp_thread_get": 0x7777, "tpt_get_num": 1})
         bindb = {"tpt": 0x2222, "udata": 0x6000, "msg_data": 0x6000, "msg_data->flags": fl, "msg_data->tpt": 0x1111, key(nxt[0]): 29,
                  "tpt_get_tp(msg_data->tpt)": 0x1000, "tpt_get_tp(tpt)": 0x1000}
